@@ -9,6 +9,7 @@
 #define VF_CBMC_RT_H
 #include <stdint.h>
 #include <stddef.h>
+#include <stdlib.h>
 
 typedef unsigned __int128 vf_u128;
 typedef __int128 vf_s128;
@@ -160,10 +161,35 @@ void vf_eptr_swap(void *, void *);
 _Bool vf_uncaught_exception(void);
 
 /* bit helpers */
-static inline uint32_t vf_ctlz32(uint32_t x) { uint32_t n = 0; if (!x) return 32; for (int i = 31; i >= 0; i--) { if ((x >> i) & 1) break; n++; } return n; }
-static inline uint64_t vf_ctlz64(uint64_t x) { uint64_t n = 0; if (!x) return 64; for (int i = 63; i >= 0; i--) { if ((x >> i) & 1) break; n++; } return n; }
-static inline uint32_t vf_cttz32(uint32_t x) { uint32_t n = 0; if (!x) return 32; for (int i = 0; i < 32; i++) { if ((x >> i) & 1) break; n++; } return n; }
-static inline uint64_t vf_cttz64(uint64_t x) { uint64_t n = 0; if (!x) return 64; for (int i = 0; i < 64; i++) { if ((x >> i) & 1) break; n++; } return n; }
+/* loop-free, defined on 0 as LLVM defines them (ctlz(0)=width) */
+static inline uint64_t vf_ctlz64(uint64_t x) {
+  if (!x) return 64;
+  uint64_t n = 0;
+  if (!(x >> 32)) { n += 32; x <<= 32; }
+  if (!(x >> 48)) { n += 16; x <<= 16; }
+  if (!(x >> 56)) { n += 8; x <<= 8; }
+  if (!(x >> 60)) { n += 4; x <<= 4; }
+  if (!(x >> 62)) { n += 2; x <<= 2; }
+  if (!(x >> 63)) { n += 1; }
+  return n;
+}
+static inline uint32_t vf_ctlz32(uint32_t x) { return x ? (uint32_t)(vf_ctlz64(x) - 32) : 32; }
+static inline uint64_t vf_cttz64(uint64_t x) {
+  if (!x) return 64;
+  uint64_t n = 0;
+  if (!(x & 0xffffffffull)) { n += 32; x >>= 32; }
+  if (!(x & 0xffff)) { n += 16; x >>= 16; }
+  if (!(x & 0xff)) { n += 8; x >>= 8; }
+  if (!(x & 0xf)) { n += 4; x >>= 4; }
+  if (!(x & 3)) { n += 2; x >>= 2; }
+  if (!(x & 1)) { n += 1; }
+  return n;
+}
+static inline uint32_t vf_cttz32(uint32_t x) { return x ? (uint32_t)vf_cttz64(x) : 32; }
+static inline uint16_t vf_cttz16(uint16_t x) { return x ? (uint16_t)vf_cttz64(x) : 16; }
+static inline uint8_t vf_cttz8(uint8_t x) { return x ? (uint8_t)vf_cttz64(x) : 8; }
+static inline uint16_t vf_ctlz16(uint16_t x) { return x ? (uint16_t)(vf_ctlz64(x) - 48) : 16; }
+static inline uint8_t vf_ctlz8(uint8_t x) { return x ? (uint8_t)(vf_ctlz64(x) - 56) : 8; }
 static inline uint32_t vf_ctpop32(uint32_t x) { return (uint32_t)__builtin_popcount(x); }
 static inline uint64_t vf_ctpop64(uint64_t x) { return (uint64_t)__builtin_popcountll(x); }
 static inline uint16_t vf_ctpop16(uint16_t x) { return (uint16_t)__builtin_popcount(x); }
